@@ -1,4 +1,5 @@
 import FstVerif.Proofs.Ops
+import FstVerif.Proofs.Wrappers
 /-
 C05 — set operations equal their mathematical definitions, for every
 admissible tie-break of the heap (`PopSpec`: `BinaryHeap::pop` returns *a*
@@ -47,5 +48,44 @@ theorem C05_superset (pop : PopFn) (hp : PopSpec pop) (a b : KV) (ha : SortedKV 
 theorem C05_allKeys_spec (streams : List KV) :
     SortedK (allKeys streams) ∧ ∀ k, k ∈ allKeys streams ↔ HasKey streams k :=
   ⟨sorted_allKeys streams, fun k => mem_allKeys streams k⟩
+
+
+/-! ### the set-level wrappers (`set::OpBuilder`, `Set::is_*`; Model/Wrappers.lean): key lists only,
+specification by membership -/
+
+theorem C05_set_union (pop : PopFn) (hp : PopSpec pop) (streams : List (List Key))
+    (hs : ∀ l ∈ streams, SortedK l) :
+    ∃ out, Wrap.setOp pop .union streams = some out ∧ SortedK out ∧ ∀ k, k ∈ out ↔ ∃ l ∈ streams, k ∈ l := by
+  obtain ⟨out, h1, _, h3, h4⟩ := Wrap.setUnion_correct pop hp streams hs
+  exact ⟨out, h1, h3, h4⟩
+
+/-- for no streams at all the result is empty (`Wrap.setOp_inter_nil`), hence `streams ≠ []` -/
+theorem C05_set_inter (pop : PopFn) (hp : PopSpec pop) (streams : List (List Key)) (hne : streams ≠ [])
+    (hs : ∀ l ∈ streams, SortedK l) :
+    ∃ out, Wrap.setOp pop .intersection streams = some out ∧ SortedK out ∧ ∀ k, k ∈ out ↔ ∀ l ∈ streams, k ∈ l :=
+  Wrap.setInter_correct pop hp streams hne hs
+
+theorem C05_set_symdiff (pop : PopFn) (hp : PopSpec pop) (streams : List (List Key))
+    (hs : ∀ l ∈ streams, SortedK l) :
+    ∃ out, Wrap.setOp pop .symmetricDifference streams = some out ∧ SortedK out ∧
+      ∀ k, k ∈ out ↔ (streams.filter (k ∈ ·)).length % 2 = 1 :=
+  Wrap.setSymDiff_correct pop hp streams hs
+
+theorem C05_set_diff (pop : PopFn) (hp : PopSpec pop) (first : List Key) (rest : List (List Key))
+    (hs : ∀ l ∈ first :: rest, SortedK l) :
+    ∃ out, Wrap.setOp pop .difference (first :: rest) = some out ∧ SortedK out ∧
+      ∀ k, k ∈ out ↔ k ∈ first ∧ ∀ l ∈ rest, k ∉ l :=
+  Wrap.setDiff_correct pop hp first rest hs
+
+theorem C05_set_predicates (pop : PopFn) (hp : PopSpec pop) (a b : List Key) (ha : SortedK a) (hb : SortedK b) :
+    (Wrap.setIsDisjoint pop a b = true ↔ ∀ k, ¬ (k ∈ a ∧ k ∈ b)) ∧
+    (Wrap.setIsSubset pop a b = true ↔ ∀ k ∈ a, k ∈ b) ∧
+    (Wrap.setIsSuperset pop a b = true ↔ ∀ k ∈ b, k ∈ a) :=
+  ⟨Wrap.setIsDisjoint_iff pop hp a b ha hb, Wrap.setIsSubset_iff pop hp a b ha hb,
+   Wrap.setIsSuperset_iff pop hp a b ha hb⟩
+
+/-- `map::OpBuilder` is the raw operation on the same streams -/
+theorem C05_map_op (pop : PopFn) (kind : OpKind) (streams : List KV) :
+    Wrap.mapOp pop kind streams = opCollect pop kind streams := Wrap.mapOp_eq pop kind streams
 
 end Fst.Props
